@@ -230,7 +230,7 @@ def random_out(rep, prog, f, c, tag):
             if a.get("k") in ("copy", "move") and a["l"] in views and not views[a["l"]]:
                 ty = f.locals[a["l"]]["t"]
                 if ty.startswith("&mut") and w.path in ("core::slice::<impl [T]>::fill", "zeroize::Zeroize::zeroize",
-                                                       "core::slice::<impl [T]>::copy_from_slice") and i == 0:
+                                                       "core::slice::<impl [T]>::copy_from_slice", "types::MutBytes::copy_from_slice") and i == 0:
                     bad.append(w)
     rep.ob("RANDOM-OUT", inst + "|not-overwritten", not bad,
            "after the RNG call the whole buffer is %s" % ("not overwritten" if not bad else "overwritten by %s" % [w.loc() + " " + w.name for w in bad]),
